@@ -133,7 +133,20 @@ func showOf[T any](f func(*sb, T)) func(any) string {
 var codecs []*codec
 var codecByName = map[string]*codec{}
 
+// modelledCodecs: the wire types the Lean driver models (`dec <name>` / `enc <name>` ops).
+var modelledCodecs = map[string]bool{}
+
+func init() {
+	for _, n := range strings.Fields("witness cond rule signer attr tx header0 header1 block0 block1 stateroot extensible") {
+		modelledCodecs[n] = true
+	}
+}
+
 func reg(c *codec) *codec {
+	if modelledCodecs[c.name] {
+		c.modelled = true
+		c.parse = true
+	}
 	codecs = append(codecs, c)
 	codecByName[c.name] = c
 	return c
